@@ -115,6 +115,13 @@ def shard_nonce(G, h, seed, acc) -> None:
     rk = root(seed, h, "DH", b"", 512, 2048)
     d = seams.Drbg(("C03n", seed))
     nonces = [b"\x00" * 32, b"\xff" * 32, b"\x00" + b"\x01" * 31] + [d.bytes(32) for _ in range(8)]
+    # random nonces that happen to look like something else: the magic of a DH / ECDH key blob, of a key identifier, an ASN.1 header, and a
+    # byte-for-byte well-formed FFC DH key blob of a 64-bit group (magic, key length 8, p, g, y) - a nonce is opaque, whatever it spells
+    import struct as _st
+
+    nonces += [m + d.bytes(32 - len(m)) for m in (b"DHPB", b"DHPM", b"ECK1", b"ECK3", b"ECK5", b"ECK", b"KDSK", b"\x30\x1e", b"\x01\x00\x00\x00KDSK")]
+    nonces.append(b"DHPB" + _st.pack("<I", 8) + (0xFFFFFFFFFFFFFFC5).to_bytes(8, "big") + (2).to_bytes(8, "big") + (0x1234567890ABCDEF).to_bytes(8, "big"))
+    nonces.append(b"ECK1" + _st.pack("<I", 12) + d.bytes(24))
     n = 0
     for gi in range(64):
         pos = lattice_pos(gi)
